@@ -29,7 +29,29 @@ files hold a group with exactly the failing pair(s).
           "expect":  optional [[bool per limits] per query]  (corpus witnesses)}
   EXPR = "this" | ["cu", r] | ["ttu", tupleset, computed] | ["union", [EXPR...]] | ["unknown", kind]
   None for a limit means "constructor default" (8 / 10000 / 50 per docs/rebac/local.md).
+
+A *history* case (key "ops") is a sequence of calls on checker instances that live as long as the
+history, over one store that grows meanwhile:
+
+  hist = {"store": [tuples added before anything else], "rules": ..., "reg": {name: kind},
+          "checkers": [[max_depth|None, max_nodes|None, deadline_ms|None], ...]   (all over the one store),
+          "shared_ctx": bool   (one dict object, rewritten in place, carries every non-None context),
+          "ops": [["add", s, r, o, caveat|None]
+                  | ["check", checker index, [s, r, o], ctx, [start, [reads...], rest] | None]
+                  | ["batch", checker index, [[s, r, o], ...], ctx]   (clock constantly 0), ...],
+          "expect": optional [answer per op, None for add]  (corpus witnesses)}
+
+* an answer of a history differs from the answer of a FRESH checker over a FRESH store holding the
+  same tuples, for the same single query, context, limits and clock script -> violation: the answer
+  of a check is a function of store, rules, registry, limits and the supplied context, not of
+  earlier calls (judged on the implementation alone; c12_exact/c12_batch state it for the model,
+  which is a pure function of exactly those).  A batch is compared per triple with single fresh checks.
+* then every answer is judged against the model as above.
+Predicate kinds "once:<kind>" keep state (first call ever raises, then pure): the call in which that
+first call can happen is judged by the lower/upper model (predicate raising / pure): never True
+outside the upper `within`, and equal to both when they agree with no limit fired.
 """
+import copy
 import itertools
 import json
 import time as _time
@@ -67,17 +89,81 @@ PREDS = {
     "ctx": lambda ctx: ctx["ok"],
     "none": None,  # registered as None: `pred is None`
 }
+# context-reading kinds used by the history families only (the older families keep drawing from PREDS)
+HPREDS = dict(PREDS)
+HPREDS.update({
+    "nok": lambda ctx: not ctx["ok"],                 # raises on None / missing key, true where "ctx" is false
+    "hour": lambda ctx: 9 <= ctx["hour"] < 18,        # raises on None / missing key / non-number
+    "isnone": lambda ctx: ctx is None,                # tells None from {}
+    "get": lambda ctx: (ctx or {}).get("ok"),         # never raises
+})
 _PRED_VALUE = {"T": True, "F": False, "R": "raise", "truthy": True, "one": True, "zero": False,
                "nil": False, "empty": False, "badbool": "raise", "none": ABSENT}
 
 
+class Once:
+    """stateful predicate 'once:<kind>': its first call ever raises, afterwards it is the pure <kind>.
+    (The state is the call count only; `spent` builds it as if the first call had already happened.)"""
+
+    def __init__(self, inner, spent=False):
+        self.inner = inner
+        self.calls = 1 if spent else 0
+
+    def __call__(self, ctx):
+        self.calls += 1
+        if self.calls == 1:
+            raise LookupError("first call fails")
+        return self.inner(ctx)
+
+
 def pred_value(kind, ctx):
-    """what bool(pred(ctx)) is, by the table above (not by calling it)."""
-    if kind == "ctx":
+    """what bool(pred(ctx)) is, by the table above (not by calling it).  'once:<kind>' is the value of
+    its pure phase."""
+    if kind.startswith("once:"):
+        kind = kind[5:]
+    if kind in ("ctx", "nok"):
         if not isinstance(ctx, dict) or "ok" not in ctx:
             return "raise"
-        return bool(ctx["ok"])
+        return bool(ctx["ok"]) == (kind == "ctx")
+    if kind == "hour":
+        if not isinstance(ctx, dict) or "hour" not in ctx:
+            return "raise"
+        v = ctx["hour"]
+        if not isinstance(v, (int, float)):
+            return "raise"
+        return 9 <= v < 18
+    if kind == "isnone":
+        return ctx is None
+    if kind == "get":
+        return bool(ctx.get("ok")) if isinstance(ctx, dict) else False
     return _PRED_VALUE[kind]
+
+
+def make_reg(reg, spent):
+    """registry of fresh predicate objects for one checker life; returns (registry, {name: Once})."""
+    if reg is None:
+        return None, {}
+    out, onces = {}, {}
+    for name, kind in reg.items():
+        if kind.startswith("once:"):
+            out[name] = onces[name] = Once(HPREDS[kind[5:]], name in spent)
+        else:
+            out[name] = HPREDS[kind]
+    return out, onces
+
+
+def hist_mreg(reg, ctx, spent, low):
+    """model registry for one call of a history: a Once that has not made its first call yet is 'raise' in
+    the lower model and its pure value in the upper one."""
+    out = {}
+    for name, kind in (reg or {}).items():
+        v = pred_value(kind, ctx)
+        if v is ABSENT:
+            continue
+        if low and kind.startswith("once:") and name not in spent:
+            v = "raise"
+        out[name] = v
+    return out
 
 
 def model_reg(reg, ctx):
@@ -243,6 +329,79 @@ class Impl:
             out.append([[t.subject, t.relation, t.resource, t.caveat] for t in ts])
         return out
 
+    # ---- histories -------------------------------------------------------
+    def _store(self, tuples):
+        st = self.L.InMemoryRelationshipStore()
+        for s, r, o, c in tuples:
+            if c is None:
+                st.add(s, r, o)
+            else:
+                st.add(s, r, o, caveat=c)
+        return st
+
+    def _run_op(self, ck, op, ctx):
+        """one check / batch_check call under its clock script."""
+        try:
+            if op[0] == "check":
+                start, reads, rest = (op[4] if len(op) > 4 and op[4] else (START, [], START))
+                _time.perf_counter_ns = itertools.chain((start,), reads, itertools.repeat(rest)).__next__
+                q = op[2]
+                return ck.check(q[0], q[1], q[2], context=ctx)
+            _time.perf_counter_ns = itertools.repeat(0).__next__
+            return list(ck.batch_check([tuple(t) for t in op[2]], context=ctx))
+        except Exception as e:  # noqa: BLE001
+            return ["!raise", type(e).__name__, str(e)[:80]]
+        finally:
+            _time.perf_counter_ns = self.real
+
+    def history(self, h, ops=None):
+        """run the calls of a history on its long-lived checkers; returns ([record | None per op], tuples).
+        record = {"a": answer, "n": number of tuples in the store at the call, "spent": names of Once
+        predicates that had made their first call before it}."""
+        L = self.L
+        ops = h["ops"] if ops is None else ops
+        st = L.InMemoryRelationshipStore()
+        tuples = []
+
+        def add(t):
+            s, r, o, c = t
+            if c is None:
+                st.add(s, r, o)
+            else:
+                st.add(s, r, o, caveat=c)
+            tuples.append([s, r, o, c])
+
+        for t in h.get("store") or []:
+            add(t)
+        rules = conv_rules(L, h.get("rules"))
+        reg, onces = make_reg(h.get("reg"), ())
+        cks = [self.checker(st, rules, reg, l[0], l[1], l[2]) for l in h["checkers"]]
+        shared = {} if h.get("shared_ctx") else None
+        recs = []
+        for op in ops:
+            if op[0] == "add":
+                add(op[1:5])
+                recs.append(None)
+                continue
+            spent = tuple(sorted(n for n, p in onces.items() if p.calls > 0))
+            ctx = copy.deepcopy(op[3])
+            if shared is not None and ctx is not None:
+                shared.clear()
+                shared.update(ctx)
+                ctx = shared
+            recs.append({"a": self._run_op(cks[op[1]], op, ctx), "n": len(tuples), "spent": spent,
+                         "unspent": len(spent) < len(onces)})
+        return recs, tuples
+
+    def fresh_ref(self, h, tuples, op, spent):
+        """the same single call on a fresh checker over a fresh store holding `tuples` (Once predicates in
+        the state they had when the history made the call)."""
+        st = self._store(tuples)
+        reg, _ = make_reg(h.get("reg"), spent)
+        l = h["checkers"][op[1]]
+        ck = self.checker(st, conv_rules(self.L, h.get("rules")), reg, l[0], l[1], l[2])
+        return self._run_op(ck, op, copy.deepcopy(op[3]))
+
 
 # --------------------------------------------------------------------------
 # model side
@@ -335,6 +494,12 @@ def _check_cases(chk, impl, cases, replay):
     def cnt(k, n=1):
         dist[k] = dist.get(k, 0) + n
 
+    hist = [c for c in cases if "ops" in c]
+    if hist:
+        _check_histories(chk, impl, hist, replay)
+        cases = [c for c in cases if "ops" not in c]
+        if not cases:
+            return
     models = run_models(cases)
     shrink_budget = [6]
     for c, mres in zip(cases, models):
@@ -459,6 +624,208 @@ def _check_cases(chk, impl, cases, replay):
                 chk.corr_break("store lookup differs: %r" % (c["lookups"][k],),
                                {"store": c["store"], "lookups": [c["lookups"][k]], "queries": [], "limits": [],
                                 "fam": fam}, impl=got[k], model=ml[k], theorems=THMS)
+    for k, n in dist.items():
+        chk.count(k, n)
+
+
+# --------------------------------------------------------------------------
+# histories: answers are functions of (store, rules, registry, limits, query, context), not of earlier calls
+# --------------------------------------------------------------------------
+HIST_CLAUSE = ("the answer of a %s depends on earlier calls on the same checker: it differs from the answer a fresh "
+               "checker over the same store gives for the same query, limits and supplied context (a caveated tuple "
+               "counts exactly when its registered predicate returns true on the context supplied with THAT call)")
+
+
+def judge_hist(a, ms):
+    """ms = [m] when every predicate is a function of the context in this call, else [lower, upper]."""
+    if len(ms) == 1:
+        return judge(a, ms[0])
+    lo, up = ms
+    if isinstance(a, list):
+        return ("violation", "check raised %s instead of answering" % a[1])
+    if not isinstance(a, bool):
+        return ("corr", "check returned a non-bool %r" % (a,))
+    if a and not up[2]:
+        return ("violation", "answered True for a relation that is not derivable within max_depth even with the "
+                             "first-call-raises predicate counted as its pure value (c12_sound)")
+    if lo[0] in ("true", "end") and up[0] == lo[0] and a != (lo[0] == "true"):
+        return ("violation", "no limit fired and the answer is '%s' whether or not the first call of the stateful "
+                             "predicate raises; implementation said %s" % (lo[0], a))
+    return None
+
+
+def _single_ops(op):
+    """a deadline-free batch as the single checks it must equal."""
+    return [["check", op[1], list(t), op[3], [0, [], 0]] for t in op[2]]
+
+
+def _hist_ref(impl, h, hstat, skey, tuples, rec, op, cache):
+    """answer of fresh checker(s) for the call `op` (cached: it is a function of the key by construction)."""
+    def one(o):
+        key = (hstat, skey, rec["spent"], json.dumps([o[0], h["checkers"][o[1]]] + list(o[2:]), sort_keys=True))
+        if key not in cache:
+            if len(cache) > 400000:
+                cache.clear()
+            cache[key] = impl.fresh_ref(h, tuples[:rec["n"]], o, rec["spent"])
+        return cache[key]
+
+    if op[0] == "check" or rec["unspent"]:
+        return one(op)
+    return [one(o) for o in _single_ops(op)]
+
+
+def _hist_fails(impl, h, ops):
+    """does the last call of `ops` still differ from its fresh reference?"""
+    recs, tuples = impl.history(h, ops)
+    rec, op = recs[-1], ops[-1]
+    if op[0] == "check" or rec["unspent"]:
+        f = impl.fresh_ref(h, tuples[:rec["n"]], op, rec["spent"])
+    else:
+        f = [impl.fresh_ref(h, tuples[:rec["n"]], o, rec["spent"]) for o in _single_ops(op)]
+    return rec["a"] != f
+
+
+def shrink_history(impl, h, ops):
+    """greedy: drop earlier ops, then initial tuples, while the last call still differs from a fresh checker."""
+    try:
+        cur_h, cur = h, list(ops)
+        changed = True
+        while changed:
+            changed = False
+            j = len(cur) - 2
+            while j >= 0:
+                cand = cur[:j] + cur[j + 1:]
+                if _hist_fails(impl, cur_h, cand):
+                    cur, changed = cand, True
+                j -= 1
+            i = 0
+            while i < len(cur_h.get("store") or []):
+                cand_h = dict(cur_h, store=cur_h["store"][:i] + cur_h["store"][i + 1:])
+                if _hist_fails(impl, cand_h, cur):
+                    cur_h, changed = cand_h, True
+                else:
+                    i += 1
+        return dict(cur_h, ops=cur)
+    except Exception:  # noqa: BLE001 - best effort
+        return dict(h, ops=list(ops))
+
+
+_FRESH_CACHE = {}   # fresh-checker answers: functions of their key by construction (new store, checker, predicates)
+_MODEL_CACHE = {}   # model line -> decoded answer (the model is a pure function of the line)
+
+
+def _check_histories(chk, impl, cases, replay):
+    dist = {}
+
+    def cnt(k, n=1):
+        dist[k] = dist.get(k, 0) + n
+
+    lines = []
+    if len(_MODEL_CACHE) > 300000:
+        _MODEL_CACHE.clear()
+
+    def want(*args):
+        ln = lib.model_call("rebac.multi", *args)
+        if ln not in _MODEL_CACHE:
+            _MODEL_CACHE[ln] = None
+            lines.append(ln)
+        return ln
+
+    cache = {} if replay else _FRESH_CACHE
+    runs = []
+    for h in cases:
+        recs, tuples = impl.history(h)
+        rules, reg = h.get("rules"), h.get("reg")
+        hstat = json.dumps([rules, reg], sort_keys=True)
+        skeys = {}
+        plan = []
+        for op, rec in zip(h["ops"], recs):
+            if rec is None:
+                plan.append(None)
+                continue
+            n = rec["n"]
+            if n not in skeys:
+                skeys[n] = json.dumps(tuples[:n])
+            ref = _hist_ref(impl, h, hstat, skeys[n], tuples, rec, op, cache)
+            l = h["checkers"][op[1]]
+            if op[0] == "check":
+                sc = op[4] if len(op) > 4 and op[4] else [START, [], START]
+                qs, ml = [list(op[2])], mlimit([l[0], l[1], l[2], sc[0], list(sc[1]), sc[2]])
+            else:
+                qs, ml = [list(t) for t in op[2]], mlimit([l[0], l[1], l[2], 0, [], 0])
+            lows = (True, False) if rec["unspent"] else (False,)
+            plan.append((ref, [want(tuples[:n], rules, hist_mreg(reg, op[3], rec["spent"], low), qs, [ml])
+                               for low in lows]))
+        runs.append((h, recs, plan))
+    if lines:
+        for ln, x in zip(lines, lib.run_model("rebac", lines, chunk=400)):
+            _MODEL_CACHE[ln] = lib.dec(x)
+    outs = _MODEL_CACHE
+    shrinks = [4]
+    for h, recs, plan in runs:
+        fam = h.get("fam", "?")
+        hkey = json.dumps([h.get("store"), h.get("rules"), h.get("reg"), h["checkers"], h.get("shared_ctx"), h["ops"]],
+                          sort_keys=True)
+        cnt("fam:" + fam)
+        cnt("hist_len:%s" % (len(h["ops"]) if len(h["ops"]) < 5 else "5-8" if len(h["ops"]) < 9 else "9+"))
+        exp = h.get("expect")
+        calls = 0
+        for i, (op, rec, pl) in enumerate(zip(h["ops"], recs, plan)):
+            if rec is None:
+                cnt("hist_op:add")
+                continue
+            a, (ref, idx) = rec["a"], pl
+            mms = [outs[j] for j in idx]
+            for mm in mms:
+                if _bad_model(mm) or any(_bad_model(x[0]) for x in mm):
+                    raise RuntimeError("model rejected history call: %r %r %r" % (mm, h, i))
+            cnt("hist_op:" + op[0] + (":stateful-predicate-may-raise" if rec["unspent"] else ""))
+            cnt("hist_ctx:%s" % ("None" if op[3] is None else "{}" if op[3] == {} else "dict"))
+            top = mms[-1]
+            chk.mark((hkey, i), calls > 0 and any(x[0][1] >= 2 or x[0][0] == "true" for x in top))
+            calls += 1
+            if chk.evaluations % 50021 == 1:
+                chk.sample({"case": dict(h, ops=h["ops"][:i + 1]), "impl": a, "fresh": ref, "model": top}, every=1)
+            what = "check" if op[0] == "check" else "batch_check"
+            vs = []
+            if a != ref:
+                vs.append(("violation", HIST_CLAUSE % what))
+            elif op[0] == "check":
+                vs.append(judge_hist(a, [mm[0][0] for mm in mms]))
+            elif a and a[0] == "!raise":
+                vs.append(("violation", "batch_check raised %s" % a[1]))
+            elif len(a) != len(op[2]):
+                vs.append(("violation", "batch_check returned %d answers for %d triples" % (len(a), len(op[2]))))
+            else:
+                vs.extend(judge_hist(x, [mm[k][0] for mm in mms]) for k, x in enumerate(a))
+            vs = [v for v in vs if v]
+            if not vs and exp is not None and i < len(exp) and exp[i] is not None and a != exp[i]:
+                vs.append(("violation", "corpus witness %s: expected %s at call %d" % (h.get("id", "?"), exp[i], i)))
+            if not vs:
+                continue
+            v = next((x for x in vs if x[0] == "violation"), vs[0])
+            case = dict(h, ops=h["ops"][:i + 1])
+            if exp is not None:
+                case["expect"] = exp[:i + 1]
+            info = {"fresh_checker": ref, "model": [[x[0] for x in mm] for mm in mms]}
+            if v[0] == "violation":
+                if len(chk.violations) >= 60:
+                    continue
+                if a != ref and not replay and shrinks[0] > 0:
+                    shrinks[0] -= 1
+                    case = shrink_history(impl, h, h["ops"][:i + 1])
+                    case.pop("expect", None)
+                    try:   # report the answers of the shrunk history, not of the one it came from
+                        r2, t2 = impl.history(case)
+                        a = r2[-1]["a"]
+                        info = {"fresh_checker": _hist_ref(impl, case, "", "", t2, r2[-1], case["ops"][-1], {}),
+                                "model_of_unshrunk_history": info["model"]}
+                    except Exception:  # noqa: BLE001
+                        pass
+                chk.violation(v[1], case, impl=a, model=info)
+            else:
+                chk.corr_break(v[1], case, impl=a, model=info, theorems=THMS)
+            break   # later calls of a history that already failed are not independent evidence
     for k, n in dist.items():
         chk.count(k, n)
 
@@ -909,6 +1276,129 @@ def gen_random_cases(chk):
     return out
 
 
+# ---- histories ---------------------------------------------------------------
+HX = [None, {}, {"ok": True, "hour": 10}, {"ok": False, "hour": 22}]     # raise / raise / true / false for "ctx", "hour"
+H_CHECKERS = [[None, None, None], [1, 10000, 50]]
+# (name, initial store, 3 queries, 3 additions): caveated direct tuples and caveated parent edges share caveat names
+H_STORES = [
+    ("direct+edge", [["user:a", "viewer", "doc:1", "c1"], ["folder:1", "parent", "doc:2", "c1"],
+                     ["user:b", "viewer", "folder:1", None]],
+     [["user:a", "viewer", "doc:1"], ["user:b", "viewer", "doc:2"], ["user:a", "viewer", "doc:2"]],
+     [["user:a", "viewer", "folder:1", "c2"], ["user:a", "viewer", "doc:1", "c2"], ["folder:1", "parent", "doc:2", None]]),
+    ("both-orders+chain", [["user:a", "viewer", "doc:1", "c2"], ["user:a", "viewer", "doc:1", "c1"],
+                           ["folder:1", "parent", "doc:1", "c2"], ["folder:2", "parent", "folder:1", "c1"],
+                           ["user:b", "viewer", "folder:2", "c1"]],
+     [["user:a", "viewer", "doc:1"], ["user:b", "viewer", "doc:1"], ["user:b", "viewer", "folder:1"]],
+     [["user:b", "viewer", "folder:2", "c2"], ["folder:2", "parent", "folder:1", "cU"], ["user:b", "viewer", "doc:1", "c1"]]),
+    ("unregistered+plain", [["user:a", "viewer", "doc:1", "cU"], ["folder:1", "parent", "doc:1", None],
+                            ["user:a", "viewer", "folder:1", "c1"], ["folder:1", "parent", "doc:2", "c2"]],
+     [["user:a", "viewer", "doc:1"], ["user:a", "viewer", "doc:2"], ["user:a", "viewer", "folder:1"]],
+     [["user:a", "viewer", "doc:1", "c1"], ["user:a", "viewer", "doc:1", None], ["folder:1", "parent", "doc:2", "c1"]]),
+]
+H_REGS = [{"c1": "ctx", "c2": "ctx"}, {"c1": "once:T", "c2": "ctx"}, {"c1": "hour", "c2": "isnone"},
+          {"c1": "ctx", "c2": "nok"}, {"c1": "once:ctx", "c2": "once:nok"}, {"c1": "get", "c2": "R"}]
+
+
+def hist_alphabet(queries, adds, full):
+    calls = [["check", 0, q, x, None] for q in queries for x in HX]
+    if full:
+        calls += [["batch", 0, [q, queries[(i + 1) % len(queries)], q], x] for i, q in enumerate(queries) for x in HX]
+        calls += [["check", 1, q, x, None] for q in queries for x in HX]      # a second checker (max_depth 1)
+    else:
+        calls += [["batch", 0, queries + [queries[0]], x] for x in HX]
+    return calls, [["add"] + t for t in adds]
+
+
+def gen_hist_enum(chk):
+    """every history of <= L ops over an alphabet of calls (queries x contexts x {check, batch}) and store
+    additions, ending in a call; yields chunks."""
+    thorough = chk.tier == "thorough"
+    plans = []       # (store index, registry index, full alphabet, L)
+    for si in range(len(H_STORES)):
+        for ri in range(len(H_REGS)):
+            if thorough:
+                plans.append((si, ri, True, 3))
+                if (ri - si) % 3 == 0:
+                    plans.append((si, ri, False, 4))
+            elif (ri - si) % 3 == 0:                       # quick: 2 registries per store, small alphabet
+                plans.append((si, ri, False, 3))
+    out, k = [], 0
+    for si, ri, full, L in plans:
+        name, store, queries, adds = H_STORES[si]
+        calls, addops = hist_alphabet(queries, adds, full)
+        alpha = calls + addops
+        for n in range(1, L + 1):
+            if not full and L == 4 and n < 4:
+                continue                                   # the shorter ones are in the L = 3 plan
+            for pre in itertools.product(alpha, repeat=n - 1):
+                for last in calls:
+                    k += 1
+                    out.append({"store": store, "rules": RULE_POOL[4], "reg": H_REGS[ri], "checkers": H_CHECKERS,
+                                "shared_ctx": bool(k & 1), "ops": list(pre) + [last], "fam": "hist-enum:" + name})
+                    if len(out) >= 20000:
+                        yield out
+                        out = []
+    if out:
+        yield out
+
+
+HCTXS = [None, {}, {"ok": True}, {"ok": False}, {"ok": True, "hour": 10}, {"ok": 0, "hour": 22}, {"hour": "x"},
+         {"hour": 12}, {"ok": "x", "z": [1]}]
+HKINDS = ["ctx", "ctx", "nok", "hour", "isnone", "get", "once:T", "once:ctx", "once:nok", "T", "F", "R", "none",
+          "badbool", "truthy"]
+
+
+def gen_hist_random(chk):
+    """longer seeded random histories over layered graphs: several checkers (different limits) over one growing
+    store, contexts on which predicates are true / false / raise, clock scripts, batches with repeats."""
+    rng = chk.rng
+    out = []
+    for _ in range(1500 if chk.tier == "quick" else 30000):
+        store, rules, _reg, queries = gen_layered(rng)
+        for t in store:
+            if t[3] is None and rng.random() < 0.3:
+                t[3] = rng.choice(CAVS)
+        reg = {c: rng.choice(HKINDS) for c in CAVS if rng.random() < 0.85}
+        queries = queries + [[t[0], t[1], t[2]] for t in store if t[1] != "parent"][:4]
+        subjects = sorted({q[0] for q in queries})
+        k = rng.randint(0, len(store))
+        cur, later = [list(t) for t in store[:k]], [list(t) for t in store[k:]]
+        init = [list(t) for t in cur]
+        checkers = [[rng.choice([8, None, 8, 3, 2, 1]), rng.choice([10000, None, 10000, 50, 6, 3]),
+                     rng.choice([50, None, 0])] for _ in range(rng.choice([1, 1, 2, 3]))]
+        ops = []
+        for _ in range(rng.randint(3, 12)):
+            x = rng.random()
+            if x < 0.3:
+                y = rng.random()
+                if later and y < 0.6:
+                    t = later.pop()
+                elif cur and y < 0.9:
+                    t = list(rng.choice(cur))                       # same triple, other caveat / plain / same
+                    t[3] = rng.choice(CAVS + [None, None, t[3]])
+                else:
+                    q = rng.choice(queries)
+                    t = [rng.choice(subjects), q[1], q[2], rng.choice(CAVS + [None])]
+                cur.append(t)
+                ops.append(["add"] + t)
+                continue
+            ci = rng.randrange(len(checkers))
+            ctx = rng.choice(HCTXS)
+            if x < 0.75:
+                sc = None
+                if rng.random() < 0.25:
+                    d = START + (DEFAULTS[2] if checkers[ci][2] is None else checkers[ci][2]) * 1_000_000
+                    sc = [START, [START] * rng.randint(0, 4), rng.choice([START, d, d + 1])]
+                ops.append(["check", ci, rng.choice(queries), ctx, sc])
+            else:
+                ops.append(["batch", ci, [rng.choice(queries) for _ in range(rng.randint(1, 5))], ctx])
+        if ops[-1][0] == "add":
+            ops.append(["check", 0, rng.choice(queries), rng.choice(HCTXS), None])
+        out.append({"store": init, "rules": rules, "reg": reg, "checkers": checkers,
+                    "shared_ctx": rng.random() < 0.5, "ops": ops, "fam": "hist-random"})
+    return out
+
+
 def load_corpus():
     d = lib.VERIF / "corpus" / "C12"
     out = []
@@ -933,11 +1423,21 @@ def run(chk):
                 "under omitted (default) limits; seeded random graphs up to 40 tuples with cycles, "
                 "self-loops, duplicates, object->object chains, random nested rules, random limits and clock scripts, "
                 "batches with repeated triples. non-trivial = the search visited >= 2 nodes or answered true (batch: "
-                "a triple is repeated); distinct = distinct (group content, query, limits)")
+                "a triple is repeated); distinct = distinct (group content, query, limits). Histories (one evaluation = "
+                "one check/batch_check call of a history, compared with a fresh checker over a fresh store and with the "
+                "model): every sequence of <= 3 ops (thorough: larger alphabet, and <= 4 ops) ending in a call over "
+                "{check, batch_check} x 3 queries x 4 contexts (None, {}, predicate true, predicate false) + 3 store "
+                "additions (caveated / same triple other caveat / plain duplicate), for 3 stores whose caveated direct "
+                "tuples and caveated parent edges share caveat names x registries of context-reading predicates "
+                "(raising on None / missing key, first-call-only raising, never raising, unregistered name); seeded "
+                "random histories of 3..13 ops over layered graphs with 1..3 checkers of different limits on one "
+                "growing store, clock scripts and batches with repeats; non-trivial = not the first call of its "
+                "history and (>= 2 nodes visited or answered true); distinct = distinct (history, call index)")
     chk.assumptions = [
         "subjects, relations, objects and caveat names are str; max_depth/max_nodes/deadline_ms are int",
         "a caveat predicate is a function of the context of the call (model: option bool per name); only "
-        "Exception subclasses are raised by predicates",
+        "Exception subclasses are raised by predicates (the history families also use predicates whose first call "
+        "ever raises: that call is judged between the model with the predicate raising and with its pure value)",
         "rule maps are dicts of dicts (or None) whose leaves are This/ComputedUserset/TupleToUserset/list; anything "
         "else is an ignored 'unknown' node",
         "time is read through time.perf_counter_ns only (scripted test-side)",
@@ -955,6 +1455,14 @@ def run(chk):
     rnd = gen_random_cases(chk)
     for i in range(0, len(rnd), 10000):
         check_cases(chk, rnd[i:i + 10000])
+    nh = 0
+    for chunk in gen_hist_enum(chk):
+        nh += len(chunk)
+        check_cases(chk, chunk)
+    chk.extra["enumerated_histories"] = nh
+    hr = gen_hist_random(chk)
+    for i in range(0, len(hr), 5000):
+        check_cases(chk, hr[i:i + 5000])
     # _split_ref (private helper; skipped when it is gone)
     from rbacx.rebac import local as L
 
